@@ -55,6 +55,7 @@ Lemma step_KDrainSnapshot : forall s e s' t rs,
   step s e = Some s' -> e_k e = KDrainSnapshot t rs ->
   exists x d, nget (targets s) t = Some x /\ nget (t_drains x) (goid (e_by e)) = Some d /\ d_snap d = None /\
     length rs = length (t_inflight x) /\ (forall r, In r (map fst rs) -> In r (t_inflight x)) /\
+    NoDup (map fst rs) /\
     (forall r h, In (r, h) rs -> h = upgraded s r) /\
     s' = upd_reqs (set_drains (tick s (e_t e)) t x (nset (t_drains x) (goid (e_by e))
                      (mkD (d_orig d) (d_deadline d) (Some (map fst rs)) false false)))
@@ -62,6 +63,7 @@ Lemma step_KDrainSnapshot : forall s e s' t rs,
 Proof.
   intros s e s' t rs H Hk. step_inv_k H Hk. fold_markh. eexists _, _. repeat split; eauto.
   - intros r Hr. match goal with Hf : forallb _ (map fst rs) = true |- _ => rewrite forallb_forall in Hf; apply nmem_In; auto end.
+  - now apply nodup_ids_NoDup.
   - match goal with Hf : forallb _ rs = true |- _ => exact (flags_spec s rs Hf) end.
 Qed.
 
